@@ -111,6 +111,7 @@ def modelVerdict (c : Case) (code dest tmps mdata info predrop extra pdir : Stri
         | .ok => "ok-stored"
         | .badDigest => "err-checksum"
         | .entityTooSmall => "err-part-size"
+        | .invalidPart => "err-part-missing"
         | .internalError =>
           if c.fault = "destdir" then "err-rename" else if c.fault = "metafail" || c.fault = "infofail" then "err-sidefile"
           else if c.cfg.mkdirsFails then "err-mkdirs"
